@@ -14,6 +14,8 @@ Recognised entry forms (everything else is `opaque` = decided by running the rea
     messages[0].a if len(messages) > 0 else DEFAULT        DEFAULT ::= np.nan | np.full((n,), np.nan)
     NAME                                                   a local assigned exactly once from a recognised form and
                                                             never stored into afterwards (`NAME[idx] = ..` -> opaque)
+    X = <float array of m.p>; idx = np.logical_and(S == E.M, np.isnan(X)); X[idx] = F[idx]
+                                                           (S, F locals of the int / float array forms): `fillNaN`
     result['k2'] = result['k1']                            alias: same entry under a second key
     result.update(MeasurementDetails.to_numpy([m.details for m in messages]))     include, path prefix `details`
     if COND: result['k'] = ...                             conditional + opaque
@@ -217,6 +219,30 @@ def recognise_trim(stmt):
     return ('trimLeadingEq', path, member)
 
 
+def recognise_fills(body, enum_values):
+    """consecutive statements  idx = np.logical_and(S == E.M, np.isnan(X)) ; X[idx] = F[idx]
+    -> {id(second statement): (X, S, 'E.M', value, F)}"""
+    res = {}
+    for a, b in zip(body, body[1:]):
+        if not (isinstance(a, ast.Assign) and len(a.targets) == 1 and isinstance(a.targets[0], ast.Name)
+                and isinstance(a.value, ast.Call) and is_np(a.value.func, 'logical_and') and len(a.value.args) == 2):
+            continue
+        idx = a.targets[0].id
+        c, n = a.value.args
+        if not (isinstance(c, ast.Compare) and isinstance(c.left, ast.Name) and len(c.ops) == 1 and isinstance(c.ops[0], ast.Eq)
+                and src(c.comparators[0]) in enum_values):
+            continue
+        if not (isinstance(n, ast.Call) and is_np(n.func, 'isnan') and len(n.args) == 1 and isinstance(n.args[0], ast.Name)):
+            continue
+        x = n.args[0].id
+        if not (isinstance(b, ast.Assign) and len(b.targets) == 1 and src(b.targets[0]) == '%s[%s]' % (x, idx)
+                and isinstance(b.value, ast.Subscript) and isinstance(b.value.value, ast.Name) and src(b.value.slice) == idx):
+            continue
+        member = src(c.comparators[0])
+        res[id(b)] = (x, c.left.id, member, enum_values[member], b.value.value.id)
+    return res
+
+
 def rebinds_messages(stmt):
     for n in ast.walk(stmt):
         if isinstance(n, (ast.Assign, ast.AugAssign, ast.AnnAssign)):
@@ -235,11 +261,12 @@ def extract_function(ci, fn, enum_values):
         ci.generic = True
         return
     locals_ = {}       # name -> (path, kind) or ('opaque', why, path)
-    stored = set()     # names that are the target of a subscripted store
+    stored = set()     # names that are the target of a subscripted store (other than a recognised fill-in)
+    fills = recognise_fills(fn.body, enum_values)
     for s in ast.walk(fn):
         if isinstance(s, ast.Assign):
             for t in s.targets:
-                if isinstance(t, ast.Subscript) and isinstance(t.value, ast.Name):
+                if isinstance(t, ast.Subscript) and isinstance(t.value, ast.Name) and id(s) not in fills:
                     stored.add(t.value.id)
     dict_name = None
     seen_dict = False
@@ -310,7 +337,16 @@ def extract_function(ci, fn, enum_values):
                     locals_[nm] = (guess_path(s.value), ('opaque',))
                     stored.add(nm)
                 return
-            if isinstance(s, ast.Assign):   # e.g. p1_time[idx] = measurement_time[idx]  (recorded in `stored`)
+            if id(s) in fills:              # X[idx] = F[idx] of a recognised fill-in
+                x, src_name, member, value, fb = fills[id(s)]
+                fx, fs, ff = locals_.get(x), locals_.get(src_name), locals_.get(fb)
+                if fx and fs and ff and fx[1] == ('perMsg', 'float', 'none', False) and ff[1] == ('perMsg', 'float', 'none', False) \
+                        and fs[1] == ('perMsg', 'int', 'int', False) and not ({x, src_name, fb} & stored):
+                    locals_[x] = (fx[0], ('fillNaN', ff[0], fs[0], member, value))
+                else:
+                    stored.add(x)
+                return
+            if isinstance(s, ast.Assign):   # any other in-place store (recorded in `stored`)
                 return
             raise ValueError('%s.to_numpy: unrecognised statement before the dictionary: `%s`' % (ci.name, src(s)[:80]))
         # after the dictionary
@@ -409,6 +445,8 @@ def lean_kind(k):
         return '.perMsg .%s .%s %s' % ({'id': 'id', 'int': 'int', 'float': 'float'}[k[1]], k[2], 'true' if k[3] else 'false')
     if k[0] == 'first':
         return '.first ' + ('.nanScalar' if k[1] == 'nanScalar' else '(.nanVec %d)' % k[2])
+    if k[0] == 'fillNaN':
+        return '.fillNaN %s %s (/- %s -/ %d)' % (lean_path(k[1]), lean_path(k[2]), k[3], k[4])
     return '.opq'
 
 
@@ -476,7 +514,10 @@ def flat_entries(classes, ci):
             res.append(e)
         else:
             for e2 in flat_entries(classes, by[e[1]]):
-                res.append(Entry(e2.key, list(e[2]) + e2.path, e2.kind, e2.conditional, e2.why, e2.line))
+                k = e2.kind
+                if k[0] == 'fillNaN':
+                    k = ('fillNaN', list(e[2]) + k[1], list(e[2]) + k[2], k[3], k[4])
+                res.append(Entry(e2.key, list(e[2]) + e2.path, k, e2.conditional, e2.why, e2.line))
     return res
 
 
